@@ -645,6 +645,10 @@ func IsAutoGenerated(path *pathlib.Path) (bool, error) {
 
 var ErrInfiniteLoop = fmt.Errorf("infinite loop in template variables detected")
 
+// maxTemplatedValueLen bounds the rendered length of a templated config value
+// (paths and identifiers are nowhere near it).
+const maxTemplatedValueLen = 1 << 20
+
 // ParseTemplates parses various templated strings
 // in the config struct into their fully defined values. This mutates
 // the config object passed. An *Interface object can be supplied to satisfy
@@ -739,6 +743,13 @@ func (c *Config) ParseTemplates(ctx context.Context, iface *Interface, srcPkg *p
 				return fmt.Errorf("failed to execute %s template: %w", name, err)
 			}
 			*attributePointer = parsedBuffer.String()
+			if len(*attributePointer) > maxTemplatedValueLen {
+				// A value that refers to itself more than once grows
+				// exponentially: give up long before the iteration limit
+				// (and the machine's memory) is reached.
+				log.Error().Str("variable-name", name).Int("length", len(*attributePointer)).Msg("templated value keeps growing")
+				return ErrInfiniteLoop
+			}
 			if *attributePointer != oldVal {
 				changesMade = true
 			}
